@@ -9,6 +9,21 @@ import PandoraModel.Properties.C13MatchingCost
 import PandoraModel.Properties.C13Pipeline
 import PandoraModel.Properties.C13Cbca
 import PandoraModel.Properties.C13Wiring
+import PandoraModel.Properties.C13Flags
+import PandoraModel.Properties.C13PipelineCost
+import PandoraModel.Properties.C13Run
+import PandoraModel.Properties.C13Flip
+import PandoraModel.Properties.C13FlipMc
+import PandoraModel.Properties.C13FlipPipeline
+import PandoraModel.Properties.C13FlipBilateral
+import PandoraModel.Properties.C13FlipFlags
+import PandoraModel.Properties.C13RunFlip
+import PandoraModel.Properties.C13CbcaClip
+import PandoraModel.Properties.C13CbcaStep
+import PandoraModel.Properties.C13PipelineCbca
+import PandoraModel.Properties.C13CbcaFlip
+import PandoraModel.Properties.C13RunCbca
+import PandoraModel.Properties.C13RunCbcaFlip
 open Pandora.C13
 #print axioms Local.comp
 #print axioms Local.pair
@@ -97,3 +112,162 @@ open Pandora.C13
 #print axioms ccOnT_equivariant
 #print axioms pipeConeT_documented
 #print axioms mc_wta_crop_eq_whole
+#print axioms atOrigin_equivariant
+#print axioms atOrigin_local
+#print axioms flagWord0_congr
+#print axioms flagStep_local
+#print axioms flagStep_equivariant
+#print axioms flagCone_le_costCone
+#print axioms word_of_bits
+#print axioms border0_eq
+#print axioms inIdx0_eq
+#print axioms rInv0_eq
+#print axioms nodataNear0_eq
+#print axioms specCell_isNan
+#print axioms rowStep_at
+#print axioms allNan_eq
+#print axioms modelMask_eq_flagWord0
+#print axioms modelMask_is_flagStep
+#print axioms composedMask_is_flagStep
+#print axioms flags_crop_eq_whole
+#print axioms refineCone_flags
+#print axioms pipeline_crop_eq_whole_flags
+#print axioms pipeline_crop_eq_whole_flags_both
+#print axioms filter_crop_eq_whole_flags
+#print axioms pipeConeT_documented_flags
+#print axioms wtaStage_local_of_cost
+#print axioms refineStage_local_of_cost
+#print axioms filterStage_local_of_cost
+#print axioms ccStage_local_of_cost
+#print axioms rightDisp_local_of_cost
+#print axioms pipeline_crop_eq_whole_of_cost
+#print axioms filter_crop_eq_whole_of_cost
+#print axioms pipeConeOf_documented
+#print axioms gridImg_tabulate
+#print axioms costStage_run
+#print axioms flags_run
+#print axioms afterFilter_is_filterStage
+#print axioms leftDataset_rect
+#print axioms fullRun_is_ccStage
+#print axioms leftRun_is_filterStage
+#print axioms run_crop_eq_whole
+#print axioms leftRun_crop_eq_whole
+#print axioms runCone_documented
+#print axioms leftInInterval_of_B
+#print axioms vflip_vflip
+#print axioms rectDom_toImg
+#print axioms toImg_flipArr
+#print axioms flip_run_eq
+#print axioms wtaStep_vflip
+#print axioms refineStep_vflip
+#print axioms ccStep_vflip
+#print axioms nanmedian_perm
+#print axioms medianStep_vflip
+#print axioms sumZ_reverse
+#print axioms allZ_reverse
+#print axioms winSum_vflip
+#print axioms winAll_vflip
+#print axioms winCount_vflip
+#print axioms valueSpec_vflip
+#print axioms maskOk_vflip
+#print axioms coreCell_vflip
+#print axioms windowsIn_vflip
+#print axioms mcCellStep_vflip
+#print axioms mcRowStep_vflip
+#print axioms mcRow_flip_run
+#print axioms noAgg_vflip
+#print axioms mcStage_vflip
+#print axioms costStage_vflip
+#print axioms wtaStage_vflip
+#print axioms refineStage_vflip
+#print axioms medianStage_vflip
+#print axioms filterStage_vflip
+#print axioms filtStage_vflip
+#print axioms ccOn_vflip
+#print axioms ccStage_vflip
+#print axioms rightDisp_vflip
+#print axioms pipeline_flip
+#print axioms filter_flip
+#print axioms pipeline_flip_lr
+#print axioms bilateralKernel_flipRows
+#print axioms bilateralStep_vflip
+#print axioms bilateralStage_vflip
+#print axioms flagStep_vflip
+#print axioms pipeFlags_vflip
+#print axioms flags_flip_run
+#print axioms pipeline_flip_flags
+#print axioms pipeline_flip_flags_both
+#print axioms filter_flip_flags
+#print axioms run_flip
+#print axioms aggregate_eq_specAgg
+#print axioms armCoded_transport'
+#print axioms median3_transport'
+#print axioms filteredL_transport'
+#print axioms filteredR_transport'
+#print axioms crossL_h'
+#print axioms crossL_v'
+#print axioms crossR_h'
+#print axioms crossR_v'
+#print axioms arms_crop_eq_whole
+#print axioms rightCol_eq
+#print axioms side_status
+#print axioms region_transport_arms
+#print axioms region_none
+#print axioms aggSpec_crop_eq_whole
+#print axioms specAgg_crop_eq_whole
+#print axioms cbca_crop_eq_whole_clipped
+#print axioms specAgg_cv_congr
+#print axioms cbcaAt_congr
+#print axioms cbcaStep_local
+#print axioms cbcaStep_congr
+#print axioms cbcaStep_equivariant
+#print axioms window_cropOf
+#print axioms window_specAgg
+#print axioms aggregate_is_cbcaStep
+#print axioms cbca_crop_run_eq_whole
+#print axioms pipeline_cbca_crop_eq_whole
+#print axioms filter_cbca_crop_eq_whole
+#print axioms costStage_cbca_local
+#print axioms cbcaCostCone_documented
+#print axioms cbcaCone_le
+#print axioms cbcaStep_costs_outside_irrelevant
+#print axioms pipeline_cbca_flags_crop_eq_whole
+#print axioms filter_cbca_flags_crop_eq_whole
+#print axioms cbcaCostCone_le_costCone
+#print axioms cbcaPipeCone_documented
+#print axioms mcStage_run
+#print axioms wtaStage_runR
+#print axioms afterRefineR_is_refineStage
+#print axioms afterFilterR_is_filterStage
+#print axioms afterFilterR_swap_is_rightDisp
+#print axioms fullRunR_is_ccStage
+#print axioms runR_crop_eq_whole
+#print axioms runR_flip
+#print axioms cbca_nanmedian_perm
+#print axioms median3_flip
+#print axioms filteredL_flip
+#print axioms filteredR_flip
+#print axioms crossSupport_flip
+#print axioms crossL_flip
+#print axioms crossR_flip
+#print axioms sumRange_reverse
+#print axioms sumRangeN_reverse
+#print axioms region_flip
+#print axioms specAgg_flip
+#print axioms nanOutside_flip
+#print axioms aggregate_flip
+#print axioms cbcaAt_negView
+#print axioms cbcaStep_vflip
+#print axioms aggregate_flip_run
+#print axioms pipeline_flip_cbca
+#print axioms filter_flip_cbca
+#print axioms pipeline_flip_flags_cbca
+#print axioms pipeline_flip_flags_both_cbca
+#print axioms filter_flip_flags_cbca
+#print axioms cbcaStep_strip
+#print axioms disp_in_interval
+#print axioms costRows_cbca
+#print axioms rightCol_isSome_of_rightInside
+#print axioms nanOutsideOK_of_mc
+#print axioms runCbca_crop_eq_whole
+#print axioms runCbca_flip
